@@ -332,6 +332,9 @@ func (s *sysWorld) apply(t tamper, q dns.Question, m *dns.Msg) *dns.Msg {
 					if old == nil {
 						continue
 					}
+					if genuine && old.Verify(z.Keys[0].Key, set) != nil {
+						genuine = false // (denial records an earlier script made up: their signature is not the zone's)
+					}
 					if !genuine {
 						out = append(out, old)
 						continue
@@ -434,6 +437,9 @@ func (s *sysWorld) apply(t tamper, q dns.Question, m *dns.Msg) *dns.Msg {
 			ahead = time.Duration(vlib.Atoi(t.arg)) * time.Second
 		}
 		resign(now.Add(ahead), now.Add(30*24*time.Hour))
+	case "resign-short": // a zone that signs with short lifetimes: genuine signatures that lapse <arg> seconds from (virtual) now
+		left := time.Duration(vlib.Atoi(t.arg)) * time.Second
+		resign(now.Add(-time.Hour), now.Add(s.p.Offset+left))
 	case "resign-valid": // control: an honest re-signing must change nothing
 		resign(now.Add(-time.Hour), now.Add(24*time.Hour))
 	case "dropsigs":
@@ -736,6 +742,15 @@ func (s *sysWorld) apply(t tamper, q dns.Question, m *dns.Msg) *dns.Msg {
 	case "inject-ns":
 		rr, _ := dns.NewRR("other.test. 300 IN NS ns.evil.example.")
 		m.Ns = append(m.Ns, rr)
+	case "inject-auth": // an unsigned record the zone does not own, appended to the AUTHORITY section (of denials too)
+		rr, _ := dns.NewRR("victim.other.test. 300 IN A 6.6.6.6")
+		if t.arg == "soa" {
+			rr, _ = dns.NewRR("other.test. 300 IN SOA ns.evil.example. h.evil.example. 666 1 1 1 1")
+		}
+		if t.arg == "txt-root" {
+			rr, _ = dns.NewRR("evil. 300 IN TXT \"injected\"")
+		}
+		m.Ns = append(m.Ns, rr)
 	case "inject-extra":
 		rr, _ := dns.NewRR("www.other.test. 300 IN A 6.6.6.6")
 		m.Extra = append([]dns.RR{rr}, m.Extra...)
@@ -812,6 +827,36 @@ func (s *sysWorld) apply(t tamper, q dns.Question, m *dns.Msg) *dns.Msg {
 	case "rcode": // a data-less error reply with the given rcode
 		m.Answer, m.Ns = nil, nil
 		m.Rcode = vlib.Atoi(t.arg)
+	case "nodata-replay":
+		// a positive answer is replaced by NOERROR with an empty answer section whose authority section carries
+		// genuine, validly signed records of the zone that DENY NOTHING about the question (no SOA, no matching NSEC)
+		z := s.zoneOfSigs(m)
+		if z != nil && z.Signed && len(m.Answer) > 0 && m.Authoritative {
+			pm := new(dns.Msg)
+			var ns []dns.RR
+			switch t.arg {
+			case "ns":
+				pm.SetQuestion(z.Name, dns.TypeNS)
+				z.Answer(pm.Question[0], true, pm)
+				ns = pm.Answer
+			case "txt":
+				pm.SetQuestion("txt."+z.Name, dns.TypeTXT)
+				z.Answer(pm.Question[0], true, pm)
+				ns = pm.Answer
+			case "nsec", "soansec":
+				pm.SetQuestion("0nope."+z.Name, dns.TypeA)
+				z.Answer(pm.Question[0], true, pm)
+				for _, rr := range pm.Ns {
+					isSOA := rr.Header().Rrtype == dns.TypeSOA || isSigFor(rr, dns.TypeSOA)
+					if t.arg == "soansec" || !isSOA {
+						ns = append(ns, rr)
+					}
+				}
+			}
+			if len(ns) > 0 {
+				m.Answer, m.Ns, m.Rcode = nil, ns, dns.RcodeSuccess
+			}
+		}
 	case "nodata-forge": // a positive answer is replaced by an unsigned empty NOERROR
 		if len(m.Answer) > 0 {
 			m.Answer, m.Ns = nil, nil
@@ -861,6 +906,15 @@ func sysTamper(f []string) vlib.Res {
 	sys.tampers[f[2]] = append(sys.tampers[f[2]], tamper{kind: f[3], arg: f[4], scope: f[5]})
 	sys.tampered = true
 	sys.install(f[2])
+	return vlib.Res{Impl: "ok"}
+}
+
+// l3 advance <seconds>: the virtual clock of every cache moves on
+func sysAdvance(f []string) vlib.Res {
+	if sys == nil {
+		return vlib.Res{Impl: "no-world"}
+	}
+	sys.p.Advance(time.Duration(vlib.Atoi(f[2])) * time.Second)
 	return vlib.Res{Impl: "ok"}
 }
 
@@ -990,7 +1044,8 @@ func sysQuery(f []string) vlib.Res {
 			add("l3/ad/set-for-cd-client", "%s %s", name, f[3])
 		case !wantsAD:
 			add("l3/ad/set-without-do-or-ad", "%s %s", name, f[3])
-		case sys.noAnchor && !(sys.cleared && isTruth && knownBefore):
+		case sys.noAnchor && !(sys.cleared && isTruth && (knownBefore || tr.Kind == "nxdomain" || tr.Kind == "nodata")):
+			// (… or a denial synthesised from NSEC proofs validated before it — RFC 8198)
 			// (after a mid-history loss of the anchors an answer validated earlier may still be served from cache)
 			add("l3/ad/set-without-trust-anchor", "%s %s", name, f[3])
 		case tr.Status != l3.Secure:
@@ -999,6 +1054,31 @@ func sysQuery(f []string) vlib.Res {
 			// judged below (secure/partial-alias-chain…): every RRset present is authentic
 		case !isTruth:
 			add("l3/ad/set-on-data-the-zone-did-not-publish", "%s %s got=%v", name, f[3], l3.SortRRs(ans))
+		}
+	}
+	// nothing is served (least of all with AD) after the signatures that prove it have lapsed — on the clock the
+	// caches live by (real time + the emulated advance)
+	if tr.Status == l3.Secure && !fl.CD && !servfail {
+		vnow := time.Now().Add(sys.p.Offset).Unix()
+		for _, sec := range [][]dns.RR{r.Answer, r.Ns} {
+			for _, rr := range sec {
+				if sg, ok := rr.(*dns.RRSIG); ok && int64(sg.Expiration) < vnow-1 {
+					add("l3/secure/served-past-signature-expiration", "%s %s covered=%d lapsed=%ds ad=%v", name, f[3], sg.TypeCovered, vnow-int64(sg.Expiration), r.AuthenticatedData)
+				}
+			}
+		}
+	}
+	// the authority section of a reply about a secure name carries only what a zone publishes (its SOA / NS, denial
+	// records aside): nothing unsigned and foreign may ride along, least of all under AD
+	if tr.Status == l3.Secure && !fl.CD && !servfail {
+		for _, rr := range r.Ns {
+			switch rr.Header().Rrtype {
+			case dns.TypeRRSIG, dns.TypeNSEC, dns.TypeNSEC3:
+				continue
+			}
+			if !sys.w.Published(rr) {
+				add("l3/secure/unpublished-record-in-authority-section", "%s %s ad=%v rr=%s", name, f[3], r.AuthenticatedData, strings.ReplaceAll(rr.String(), "\t", " "))
+			}
 		}
 	}
 	if servfail {
@@ -1191,7 +1271,7 @@ func genL3(r *vlib.R, emit func(string)) int {
 	if r.Chance(1, 10) {
 		nt = 3
 	}
-	servers := []string{"root", "tld", "zone", "zone", "zone", "other"}
+	servers := []string{"root", "tld", "zone", "zone", "zone", "other", "plain"}
 	if subk != "-" {
 		servers = append(servers, "sub", "sub")
 	}
@@ -1211,7 +1291,9 @@ func genL3(r *vlib.R, emit func(string)) int {
 		{"wildcard-replay", "-", "data"}, {"wildcard-replay", "foreign", "data"}, {"wildcard-replay", "foreign", "data"}, {"wildcard-replay", "foreign-root", "data"},
 		{"wildcard-replay", "inzone", "data"}, {"wildcard-replay", "foreignsig", "data"}, {"ds-childside", "-", "all"},
 		{"rcode", "1", "data"}, {"rcode", "4", "data"}, {"rcode", "5", "data"}, {"rcode", "9", "data"}, {"rcode", "3", "all"},
-		{"sigfield", "alg16", "data"}, {"sigfield", "alg12", "all"}, {"sigfield", "alg1", "data"}, {"sigfield", "alg253", "notkey"}, {"sigfield", "tag", "data"},
+		{"inject-auth", "a", "data"}, {"inject-auth", "soa", "data"}, {"inject-auth", "txt-root", "data"}, {"inject-auth", "a", "all"},
+		{"nodata-replay", "ns", "data"}, {"nodata-replay", "txt", "data"}, {"nodata-replay", "nsec", "data"}, {"nodata-replay", "soansec", "data"},
+		{"nodata-replay", "ns", "data"}, {"sigfield", "alg16", "data"}, {"sigfield", "alg12", "all"}, {"sigfield", "alg1", "data"}, {"sigfield", "alg253", "notkey"}, {"sigfield", "tag", "data"},
 		{"sigfield", "covered", "data"}, {"sigfield", "origttl", "data"}, {"sigfield", "alg16", "notkey"},
 		{"dname-retarget", "evil", "data"}, {"dname-retarget", "evil", "data"}, {"dname-retarget", "insert", "data"}, {"ds-replay-nsec", "-", "all"},
 		{"padkey", "denyds", "all"}, {"padkey", "data", "all"}, {"padkey", "deny", "all"}, {"padkey", "data", "all"}}
@@ -1259,11 +1341,31 @@ func genL3(r *vlib.R, emit func(string)) int {
 				if under("other.test.") || strings.HasPrefix(q.name, "xalias.") {
 					focus = append(focus, q)
 				}
+			case "plain":
+				if under("plain.test.") || strings.HasPrefix(q.name, "ialias.") {
+					focus = append(focus, q)
+				}
 			default:
 				if under("zone.test.") && !under("sub.zone.test.") {
 					focus = append(focus, q)
 				}
 			}
+		}
+	}
+	if zone == "s" && r.Chance(1, 8) {
+		// a zone signing with short lifetimes: answers and denials are cached, the clock passes the expiration, the same is asked again
+		left := vlib.Pick(r, []int{20, 30, 45})
+		e(fmt.Sprintf("l3 tamper zone resign-short %d %s", left, vlib.Pick(r, []string{"data", "data", "notkey"})))
+		var asked []sysQ
+		for i := 0; i < 3+r.Intn(3); i++ {
+			q := vlib.Pick(r, []sysQ{{"nope.zone.test.", "A"}, {"nope2.zone.test.", "TXT"}, {"www.zone.test.", "AAAA"}, {"www.zone.test.", "A"}, {"txt.zone.test.", "TXT"},
+				{"x.w.zone.test.", "TXT"}, {"x.w.zone.test.", "A"}, {"alias.zone.test.", "A"}, {"mx.zone.test.", "MX"}})
+			asked = append(asked, q)
+			e(fmt.Sprintf("l3 q %s %s d", q.name, q.typ))
+		}
+		e(fmt.Sprintf("l3 advance %d", left+vlib.Pick(r, []int{5, 20, 60})))
+		for _, q := range asked {
+			e(fmt.Sprintf("l3 q %s %s %s", q.name, q.typ, vlib.Pick(r, []string{"d", "d", "da", "dw"})))
 		}
 	}
 	if anchors == "t" && r.Chance(1, 7) {
